@@ -3,6 +3,7 @@ import CelmaVerif.Lemmas.FixedStringC11Dev
 import CelmaVerif.Lemmas.FixedStringC11DevStep
 import CelmaVerif.Lemmas.FixedStringC11DevNul
 import CelmaVerif.Lemmas.FixedStringC11DevIt
+import CelmaVerif.Lemmas.FixedStringC11DevStd
 /-
   C11 — a fixed-capacity string equals `std::string` cut off at the capacity.
   Property theorems only (helper lemmas: Lemmas/FixedStringC11*.lean).
@@ -290,15 +291,29 @@ theorem C11_deviation_at_length (c cu : Cfg) (w : World) (hw : WFW c cu w) (op :
   dev_step_atLength hw op hk
 
 /-- A count that reaches behind the terminator of a C string (`n > strlen( p)`): `append( p, n)`,
-    `replace( pos, cnt, p, n)`, `compare( pos, cnt, p, n)` and `rfind( p, pos, n)` do exactly what the same call with
-    `n = strlen( p)` does (`clampCount op`, which is inside the count restriction of `inDomain`), whereas the textbook
-    overloads take the `n` bytes `[p, p + n)`, NUL and what follows included (`a.take n`, a different text).
+    `replace( pos, cnt, p, n)`, `compare( pos, cnt, p, n)` and `rfind( p, pos, n)`.
+    **`std::string`** takes the `n` bytes `[p, p + n)`, NUL and what follows included: its answer is the textbook
+    function of the overload (`countOn`: append / replace / compare / rfind with the text as a parameter) on
+    `a.take k`.  **The code** does exactly what the same call with `n = strlen( p)` does (`clampCount op`), the textbook
+    answer of that call is the same function on `ofCStr a` (a different text), and whenever the clamped call lies in
+    the domain the code's result IS that value: text cut at the capacity, returned value equal.
+    Labelled: when the clamped call is not in the domain — `rfind( "\0x", 0, 2)` clamps to `rfind( p, 0, 0)`, kind
+    `rfindCountZero`; `replace`/`compare` with `pos > size()`, where `std::string` throws — the code side is only
+    "same as the clamped call", whose value is given by `C11_deviation_rfind_count_zero`.
     Header: "Appends a C string ... Number of characters from str". -/
-theorem C11_deviation_count_beyond_terminator (c cu : Cfg) (w : World) (op : Op)
+theorem C11_deviation_count_beyond_terminator (c cu : Cfg) (hc : CfgOK c) (w : World) (hw : WFW c cu w) (op : Op)
     (hk : devCase (npos c) w op = some .countBeyondTerminator) :
     step c cu w op = step c cu w (clampCount op) ∧
-    ∃ a k, countArg op = some (a, k) ∧ (StdString.ofCStr a).length < k ∧ a.take k ≠ StdString.ofCStr a :=
-  dev_step_countBeyondTerminator op hk
+    ∃ a k, countArg op = some (a, k) ∧ (StdString.ofCStr a).length < k ∧ a.take k ≠ StdString.ofCStr a ∧
+      spec id (npos c) w op = countOn (abs w.s) (a.take k) op ∧
+      spec id (npos c) w (clampCount op) = countOn (abs w.s) (StdString.ofCStr a) op ∧
+      (ArgsOK c w (clampCount op) → inDomain (npos c) w (clampCount op) = true →
+        ∀ w' o, step c cu w op = .ok (w', o) →
+          ∃ t o', countOn (abs w.s) (StdString.ofCStr a) op = .ok (t, o') ∧ abs w'.s = t.take c.L ∧ o = o') := by
+  obtain ⟨h1, a, k, h2, h3, h4⟩ := dev_step_countBeyondTerminator (c := c) (cu := cu) op hk
+  obtain ⟨a', k', h2', h5, h6, h7⟩ := dev_spec_countBeyondTerminator hc hw op hk
+  rw [h2] at h2'; cases h2'
+  exact ⟨h1, a, k, h2, h3, h4, h5, h6, h7⟩
 
 /-- `end()` — or an iterator built at a position `≥ size()`, which is `end()` too — as the position of the three
     iterator `insert` overloads: nothing is inserted and `end()` is returned (header: "pointing to end if the given
@@ -370,34 +385,45 @@ theorem C11_deviation_replace_by_nothing (c cu : Cfg) (w : World) (hw : WFW c cu
   rw [h4, hr, List.append_nil]
 
 /-- `replace( first, last, first2, end())` where the text of the source behind `first2` contains a NUL character:
-    the code measures the source with `strlen( &*first2)` and takes the characters up to that NUL only;
-    `std::string` takes the whole range. -/
-theorem C11_deviation_nul_in_iterator_source (c cu : Cfg) (hc : CfgOK c) (w : World) (hw : WFW c cu w)
-    (f l i j : ItArg) (hk : devCase (npos c) w (.repItItItIt f l i j) = some .nulInIteratorSource) :
-    (∀ w' o, step c cu w (.repItItItIt f l i j) = .ok (w', o) →
+    the call returns (caller contract `ArgsOK`), the code measures the source with `strlen( &*first2)` and takes the
+    characters up to that NUL only; `std::string` takes the whole range; the two replacement texts differ. -/
+theorem C11_deviation_nul_in_iterator_source (c cu : Cfg) (hc : CfgOK c) (hcu : CfgOK cu) (w : World)
+    (hw : WFW c cu w) (f l i j : ItArg) (ha : ArgsOK c w (.repItItItIt f l i j))
+    (hk : devCase (npos c) w (.repItItItIt f l i j) = some .nulInIteratorSource) :
+    (∃ w' o, step c cu w (.repItItItIt f l i j) = .ok (w', o) ∧
       abs w'.s = ((abs w.s).take (itPos (abs w.s) f) ++ StdString.ofCStr ((abs w.t).drop (itPos (abs w.t) i)) ++
                   (abs w.s).drop (itPos (abs w.s) l)).take c.L) ∧
     spec id (npos c) w (.repItItItIt f l i j) =
       .ok ((abs w.s).take (itPos (abs w.s) f) ++ (abs w.t).drop (itPos (abs w.t) i) ++
            (abs w.s).drop (itPos (abs w.s) l), .unit) ∧
-    StdString.ofCStr ((abs w.t).drop (itPos (abs w.t) i)) ≠ (abs w.t).drop (itPos (abs w.t) i) :=
-  dev_step_nulInIteratorSource hc hw f l i j hk
+    StdString.ofCStr ((abs w.t).drop (itPos (abs w.t) i)) ≠ (abs w.t).drop (itPos (abs w.t) i) := by
+  obtain ⟨h1, h2, h3⟩ := dev_step_nulInIteratorSource hc hw f l i j hk
+  obtain ⟨w', o, h⟩ := dev_returns_repItItItIt hc hcu hw f l i j ha
+  exact ⟨⟨w', o, h, h1 w' o h⟩, h2, h3⟩
 
 /-- Empty search strings and empty character sets: `contains` answers `false`, `find`, `rfind` and the four
     `find_*_of` families `npos`, for every content and every position (tests: 2232-2239 "always returns false for
-    empty strings", 2966, 3142, 3240, 3429, 3638).  The textbook side is `C11_std_empty_needle`. -/
+    empty strings", 2966, 3142, 3240, 3429, 3638); `std::string` answers `true` for `contains( "")` and, for the
+    searches, the textbook value of the family for the empty text (`emptyStd`; in closed form for each of the six
+    families in `C11_std_empty_needle`). -/
 theorem C11_deviation_empty_needle (c cu : Cfg) (w : World) (hw : WFW c cu w) (op : Op) (ha : ArgsOK c w op)
-    (hk : devCase (npos c) w op = some .emptyNeedle) : step c cu w op = .ok (w, emptyOut op) :=
-  dev_step_emptyNeedle hw op ha hk
+    (hk : devCase (npos c) w op = some .emptyNeedle) :
+    step c cu w op = .ok (w, emptyOut op) ∧ spec id (npos c) w op = .ok (abs w.s, emptyStd c w op) :=
+  ⟨dev_step_emptyNeedle hw op ha hk, dev_spec_emptyNeedle op hk⟩
 
-/-- ... whereas `std::string` finds the empty string everywhere: `contains( "")` is true, `find( "", pos) = pos`,
-    `rfind( "", pos) = min( pos, size())`, `find_first_not_of( "", pos) = pos` inside the string; `find_first_of( "")`
-    and `find_last_of( "")` are `npos` there too (there the code agrees). -/
+/-- ... the textbook values: `std::string` finds the empty string everywhere: `contains( "")` is true,
+    `find( "", pos) = pos`, `rfind( "", pos) = min( pos, size())`, `find_first_not_of( "", pos) = pos` inside the
+    string, `find_last_not_of( "", pos) = min( pos, size() - 1)` on a non-empty string (`"abc".find_last_not_of( "")`
+    is 2, the code answers `npos`); `find_first_of( "")` and `find_last_of( "")` are `npos` there too (there the code
+    agrees). -/
 theorem C11_std_empty_needle (x : Str) (pos : Nat) :
     StdString.contains x [] = true ∧ (pos ≤ x.length → StdString.find x [] pos = some pos) ∧
     StdString.rfind x [] pos = some (min pos x.length) ∧
-    (pos < x.length → StdString.findFirstNotOf x [] pos = some pos) ∧ StdString.findFirstOf x [] pos = none :=
-  ⟨std_contains_empty x, std_find_empty x pos, std_rfind_empty x pos, std_ffno_empty x pos, std_ffo_empty x pos⟩
+    (pos < x.length → StdString.findFirstNotOf x [] pos = some pos) ∧ StdString.findFirstOf x [] pos = none ∧
+    StdString.findLastNotOf x [] pos = (if 0 < x.length then some (min pos (x.length - 1)) else none) ∧
+    StdString.findLastOf x [] pos = none :=
+  ⟨std_contains_empty x, std_find_empty x pos, std_rfind_empty x pos, std_ffno_empty x pos, std_ffo_empty x pos,
+   std_flno_empty x pos, std_flo_empty x pos⟩
 
 /-- `rfind( p, pos, 0)`: `npos` on an empty string and for `p == ""`, otherwise `min( pos, size())` — which is what
     `std::string::rfind( p, pos, 0)` answers in every case. -/
@@ -412,23 +438,30 @@ theorem C11_deviation_rfind_count_zero (c cu : Cfg) (hc : CfgOK c) (w : World) (
     `( str, pos, count)` overloads of `find_last_of` / `find_last_not_of` also `npos`, and since fix 3448a31 also
     `pos == size()`): `rfind( ch, pos)`, `find_last_of` and `find_last_not_of` answer `npos` (tests: 3301
     `rfind( 'l', 20) == npos` on a string of length 20, 3595, 3621).  `std::string` clamps the position: the answer
-    is the one for `npos` — which the code gives for `npos` only (`C11_step`).  `hsz`: the position is a `size_t`. -/
+    is the textbook value of the family for the start position `npos` (explicit, third conjunct) — which the code
+    gives for `npos` only (`C11_step`).  `hsz`: the position is a `size_t`. -/
 theorem C11_deviation_backward_beyond_end (c cu : Cfg) (hc : CfgOK c) (w : World) (hw : WFW c cu w) (fam : Fam)
     (nd : Needle) (ha : ArgsOK c w (.search fam nd)) (hsz : needlePos (npos c) nd < c.W)
     (hk : devCase (npos c) w (.search fam nd) = some .backwardBeyondEnd) :
     step c cu w (.search fam nd) = .ok (w, .pos none) ∧ (abs w.s).length ≤ needlePos (npos c) nd ∧
-    spec id (npos c) w (.search fam nd) = spec id (npos c) w (.search fam (nd.atNpos (npos c))) :=
-  dev_step_backwardBeyondEnd hc hw fam nd ha hsz hk
+    spec id (npos c) w (.search fam nd) =
+      .ok (abs w.s, .pos (famStd fam (abs w.s) (needleText w nd) (npos c))) :=
+  ⟨(dev_step_backwardBeyondEnd hc hw fam nd ha hsz hk).1, (dev_step_backwardBeyondEnd hc hw fam nd ha hsz hk).2.1,
+   dev_spec_backwardBeyondEnd hc hw fam nd ha hsz hk⟩
 
 /-- The strchr-based character-class searches (`find_first_of`, `find_first_not_of`, `find_last_of`,
     `find_last_not_of` with a FixedString, `std::string` or C-string argument) on a content or a set with an embedded
     NUL: the answer is the textbook answer for the set `ofCStr pat ++ [0]` — the set ends at its first NUL, and NUL
-    belongs to every set (`strchr( str, '\0')` finds the terminator).  Holds for every content. -/
+    belongs to every set (`strchr( str, '\0')` finds the terminator).  Holds for every content.  `std::string`
+    answers the same family function for the set as given, embedded NULs being ordinary characters (second conjunct;
+    the two differ e.g. for `find_first_not_of( "x")` on `"a\0c"` from position 1: code 2, `std::string` 1). -/
 theorem C11_deviation_strchr_nul (c cu : Cfg) (hc : CfgOK c) (w : World) (hw : WFW c cu w) (fam : Fam) (nd : Needle)
     (ha : ArgsOK c w (.search fam nd)) (hk : devCase (npos c) w (.search fam nd) = some .strchrNul) :
     step c cu w (.search fam nd) =
-      .ok (w, .pos (famStd fam (abs w.s) (StdString.ofCStr (needleText w nd) ++ [0]) (needlePos (famDflt c fam) nd))) :=
-  dev_step_strchrNul hc hw fam nd ha hk
+      .ok (w, .pos (famStd fam (abs w.s) (StdString.ofCStr (needleText w nd) ++ [0]) (needlePos (famDflt c fam) nd))) ∧
+    spec id (npos c) w (.search fam nd) =
+      .ok (abs w.s, .pos (famStd fam (abs w.s) (needleText w nd) (needlePos (famDflt c fam) nd))) :=
+  ⟨dev_step_strchrNul hc hw fam nd ha hk, spec_search c w fam nd⟩
 
 /-! ### the hypotheses are satisfiable, the statements are not vacuous -/
 
@@ -478,6 +511,19 @@ example : inDomain (npos ⟨4, 2 ^ 64, 256⟩) ⟨⟨[97, 98, 99, 0, 7], 3⟩, f
     (.search .rfind (.c 0 none)) = true := by decide
 example : rfindCh ⟨4, 2 ^ 64, 256⟩ ⟨[97, 98, 99, 0, 7], 3⟩ 0 (npos ⟨4, 2 ^ 64, 256⟩) = .ok none ∧
     StdString.rfind [97, 98, 99] [0] (npos ⟨4, 2 ^ 64, 256⟩) = none := ⟨rfl, by decide⟩
+/-- `operator<<` on a content with a stored NUL (`"a\0c"`, third audit): inside the domain; since fix 7351acb the
+    code writes all three characters like `std::string` (before: `c_str()`, one character) -/
+example : inDomain (npos ⟨4, 2 ^ 64, 256⟩) ⟨⟨[97, 0, 99, 0, 7], 3⟩, fresh ⟨4, 2 ^ 64, 256⟩, fresh ⟨9, 2 ^ 64, 256⟩⟩
+    .stream = true := by decide
+example : streamView ⟨[97, 0, 99, 0, 7], 3⟩ = .ok [97, 0, 99] ∧ cstrView ⟨[97, 0, 99, 0, 7], 3⟩ = .ok [97] ∧
+    spec id (npos ⟨4, 2 ^ 64, 256⟩) ⟨⟨[97, 0, 99, 0, 7], 3⟩, fresh ⟨4, 2 ^ 64, 256⟩, fresh ⟨9, 2 ^ 64, 256⟩⟩ .stream =
+      .ok ([97, 0, 99], .bytes [97, 0, 99]) := ⟨rfl, rfl, rfl⟩
+/-- the two sides of `C11_deviation_strchr_nul` differ: `find_first_not_of( std::string( "x"), 1)` on `"a\0c"` -/
+example : famStd .ffno [97, 0, 99] (StdString.ofCStr [120] ++ [0]) 1 = some 2 ∧ famStd .ffno [97, 0, 99] [120] 1 = some 1 := by
+  decide
+/-- the one empty-needle call where code and `std::string` differ on a value: `"abc".find_last_not_of( "")` -/
+example : StdString.findLastNotOf [97, 98, 99] [] (npos ⟨4, 2 ^ 64, 256⟩) = some 2 := by
+  rw [(C11_std_empty_needle _ _).2.2.2.2.2.1]; decide
 /-- `erase( it, it)` on a dereferenceable `it` and an explicit `npos` as position are inside the domain now -/
 example : inDomain (npos ⟨4, 2 ^ 64, 256⟩) ⟨⟨[97, 98, 99, 0, 7], 3⟩, fresh ⟨4, 2 ^ 64, 256⟩, fresh ⟨9, 2 ^ 64, 256⟩⟩
     (.eraseItIt (.pos 1) (.pos 1)) = true := by decide
